@@ -538,7 +538,9 @@ class World:
     # ------------------------------------------------------------------ oracle: deletions (property text)
     DELETING = {"ds": "stream-deletion", "dm": "media-file deletion", "dk": "key deletion",
                 "xm": "multi-period-stream deletion", "up": "media-file replacement (upload of the same name)",
-                "as": "stream-replacement (add with the directory of an existing one)"}
+                "as": "stream-replacement (add with the directory of an existing one)",
+                "am": "multi-period-stream creation (tracks a Period no longer lists)",
+                "mm": "multi-period-stream edit (tracks a Period no longer lists)"}
 
     @staticmethod
     def owned_rows(before: dict, op: tuple) -> tuple[dict, set, dict, set]:
@@ -588,6 +590,27 @@ class World:
         elif k == "dk":
             own["keys"].add(op[1])
             links.update(x for x in before["links"] if x[1] == op[1])
+        elif k in ("am", "mm"):
+            # saving a Period again with fewer tracks deletes the AdaptationSet rows of the dropped tracks OF THAT
+            # Period - and nothing else; the addressed Period rows (and the edited mps row) change in place
+            specs = op[3] if k == "am" else op[5]
+            if k == "mm":
+                for m in before["mps"]:
+                    if m["name"] == op[1]:
+                        changed[("mps", m["pk"])] = {**m, "name": op[3], "title": title_text(op[4])}
+                mpk = next((m["pk"] for m in before["mps"] if m["name"] == op[1]), None)
+            else:
+                mpk = None
+            for sp in specs:
+                if sp[0] is not None:
+                    target = next((p for p in before["periods"] if p["pk"] == sp[0]), None)
+                else:
+                    target = next((p for p in before["periods"] if p["pid"] == sp[1] and p["parent"] == mpk), None)
+                if target is None:
+                    continue
+                changed[("periods", target["pk"])] = {**target, "pid": sp[1], "stream": sp[2], "ordering": sp[3]}
+                own["adps"].update(a["pk"] for a in before["adps"]
+                                   if a["period"] == target["pk"] and a["track"] not in sp[4])
         elif k == "xm":
             ms = [m for m in before["mps"] if m["name"] == op[1]]
             own["mps"].update(m["pk"] for m in ms)
@@ -608,7 +631,7 @@ class World:
             now = {r["pk"]: r for r in after[t]}
             for r in before[t]:
                 if r["pk"] in own[t]:
-                    if op[0] not in ("up", "as") and r["pk"] in now:
+                    if op[0] not in ("up", "as", "am", "mm") and r["pk"] in now:
                         out.append(f"{what} left a row it owns: {t} {r}")
                     continue
                 want = changed.get((t, r["pk"]), r)
@@ -619,7 +642,7 @@ class World:
         now_links = set(after["links"])
         for x in before["links"]:
             if x in links:
-                if op[0] not in ("up", "as") and x in now_links:
+                if op[0] not in ("up", "as", "am", "mm") and x in now_links:
                     out.append(f"{what} left a key link it owns: {x}")
             elif x not in now_links:
                 out.append(f"{what} removed a key link it does not own: {x}")
